@@ -55,7 +55,7 @@ fn t_tensor(a: &Tens, ai: usize, ao: usize, b: &Tens, bi: usize, bo: usize) -> T
 fn t_dagger(a: &Tens, ni: usize, no: usize) -> Tens {
     match a {
         Tens::Exact(x) => Tens::Exact(eval::dagger(x, ni, no)),
-        Tens::Float(x) => Tens::Float(eval::dagger(x, ni, no)),
+        Tens::Float(x) | Tens::FloatN(x, _) => Tens::Float(eval::dagger(x, ni, no)),
     }
 }
 
@@ -105,7 +105,7 @@ fn t_apply(t: &Tens, nlegs: usize, plugs: &[(usize, BasisElem)], unnormalised: b
             }
             Tens::Exact(cur)
         }
-        Tens::Float(x) => {
+        Tens::Float(x) | Tens::FloatN(x, _) => {
             let inv = Cf::new(std::f64::consts::FRAC_1_SQRT_2, 0.0);
             let scale = if unnormalised { Cf::new(std::f64::consts::SQRT_2, 0.0) } else { Cf::new(1.0, 0.0) };
             let mut cur = x.clone();
